@@ -265,6 +265,10 @@ pub fn run_c04(a: &Args) {
                 if f.len() > 8 { let mut g = f.clone(); g[0] = if compressed { 1 } else { 4 }; one(g, &mut st, &mut out, true); let mut h = f.clone(); h[0] = h[0].wrapping_sub(1); one(h, &mut st, &mut out, true); }
             }
         } }
+        // frames of every kind with non-canonical but well-framed content (values above documented maxima, repeated list entries, dirty padding)
+        for k in KINDS.iter() { for _ in 0..(if a.thorough() { 60 } else { 8 }) { if let Some((f, _)) = gen_frame(&mut rng, k, compressed, 2, None) { one(f, &mut st, &mut out, true); } } }
+        // list kinds whose entries all repeat (peer-supplied lists are not sets)
+        for k in KINDS.iter() { if let Tail::Words = k.tail { for n in [2usize, 3, 120] { let base = 2 + fixed_width(k.fixed); let mut f = vec![0u8; base + 4 * n]; f[1] = k.magic; f[3] = n as u8; for i in 0..n { f[base + 4 * i..base + 4 * i + 4].copy_from_slice(&[1, 0, 0, 127]); } if f.len() % 4 == 0 && f.len() <= if compressed { 1020 } else { 252 } { f[0] = if compressed { (f.len() / 4) as u8 } else { f.len() as u8 }; one(f, &mut st, &mut out, true); } } } }
         st.exhaustive.push(format!("every byte value 0..255 in the first byte of every enum-typed / hand-coded field of every kind ({} mode)", mode_tag(compressed)));
         // 3. random strings
         let n = if a.thorough() { 300_000 } else { 20_000 };
@@ -285,6 +289,13 @@ fn text_slot(k: &Kind, idx: usize) -> Option<(usize, usize, Option<usize>)> {
     let mut off = 2; let mut i = 0;
     for (_, a) in k.fixed { if let Atom::Text { n, .. } = a { if i == idx { return Some((off, *n, None)); } i += 1; } off += width(a); }
     if let Tail::TextEof { max, align, .. } = k.tail { if i == idx { return Some((off, max, Some(align))); } }
+    None
+}
+
+/// a generated frame of kind k that decodes and re-encodes to the identical bytes (a generated frame may hold values that do not,
+/// e.g. a float NaN with a payload): the base for substitution sweeps that compare re-encodings.  None after 12 attempts.
+pub fn stable_frame(rng: &mut Rng, k: &Kind, compressed: bool, rows: Option<usize>) -> Option<Vec<u8>> {
+    for _ in 0..12 { if let Some((f, _)) = gen_frame(rng, k, compressed, 0, rows) { if let Dec::Got(p, n) = decode_buf(compressed, &f) { if n == f.len() && matches!(encode_p(compressed, &p), Enc::Ok(e) if e == f) { return Some(f); } } } }
     None
 }
 
@@ -313,6 +324,31 @@ pub fn typed_api_checks(prop: &str, a: &Args, st: &mut Stats) {
             }
         }
     } } }
+    // IS_MSO built by hand with a player-name prefix (textstart > 0) whose encoded length differs from its UTF-8 length: the message field
+    // is the encoded message NUL-padded to a multiple of 4 and cut at 128 bytes, TextStart is the ENCODED length of the name
+    {
+        use insim::insim::{Mso, MsoUserType};
+        use insim_core::string::codepages::to_lossy_bytes;
+        for name in ["^7Player \u{11b} ^7: ", "^7\u{418}\u{433}\u{43e}\u{440}\u{44c} ^7: ", "abc: ", "\u{65e5}\u{672c} : ", ""] { for tl in [0usize, 1, 50, 100, 108, 109, 110, 111, 112, 113, 114, 115, 116, 120, 127, 128, 129, 140] {
+            let msg = format!("{name}{}", "x".repeat(tl));
+            let m = Mso { reqi: RequestId(0), ucid: ConnectionId(3), plid: insim::identifiers::PlayerId(4), usertype: MsoUserType::User, textstart: name.len() as u8, msg: msg.clone() };
+            for compressed in [true, false] {
+                st.evaluations += 1;
+                let id = format!("mso {} {} {tl}", mode_tag(compressed), hex(name.as_bytes()));
+                let mut want = to_lossy_bytes(&msg).to_vec(); while want.len() % 4 != 0 { want.push(0); } want.truncate(128);
+                match encode_p(compressed, &Packet::Mso(m.clone())) {
+                    Enc::Ok(b) => {
+                        if let Some(w) = wellformed(compressed, &b, 11) { st.fail(format!("[{prop}] IS_MSO with a {}-byte name and {tl} bytes of text: {w}", name.len()), id.clone()); }
+                        if b.len() > 136 { st.fail(format!("[{prop}] IS_MSO with a {}-byte name and {tl} bytes of text: the message occupies {} bytes, more than its maximum 128", name.len(), b.len() - 8), id.clone()); }
+                        else if b[8..] != want[..] { st.fail(format!("[{prop}] IS_MSO with a {}-byte name and {tl} bytes of text: the message field holds {} but the encoded message padded and cut is {}", name.len(), hex(&b[8..]), hex(&want)), id.clone()); }
+                        if b.len() >= 8 && b[7] as usize != to_lossy_bytes(name).len() { st.fail(format!("[{prop}] IS_MSO TextStart is {} but the encoded name is {} bytes", b[7], to_lossy_bytes(name).len()), id.clone()); }
+                    },
+                    Enc::Err => st.fail(format!("[{prop}] IS_MSO with a {}-byte name and {tl} bytes of text is refused", name.len()), id.clone()),
+                    Enc::Panic => st.fail(format!("[{prop}] IS_MSO with a {}-byte name and {tl} bytes of text makes the encoder panic", name.len()), id.clone()),
+                }
+            }
+        } }
+    }
     // IS_MAL / IS_IPB: any history of insert / remove / clear, then encode: NumM / NumB = the number of 4-byte entries that follow
     for rep in 0..(if a.thorough() { 4000 } else { 400 }) {
         let mut mal = Mal::default(); mal.reqi = RequestId(9); mal.ucid = ConnectionId(12);
@@ -357,7 +393,7 @@ fn codec_pool() -> Vec<Packet> {
 }
 
 pub fn run_c03(a: &Args) {
-    if let Some(r) = &a.replay { if r.starts_with("ver ") || r.starts_with("sethist ") {
+    if let Some(r) = &a.replay { if r.starts_with("ver ") || r.starts_with("sethist ") || r.starts_with("mso ") {
         let mut st = Stats::default(); typed_api_checks("C03", a, &mut st);
         match st.failures.iter().find(|f| f.2 == *r) { Some(f) => { println!("FAIL {}", f.1); std::process::exit(1) }, None => { println!("PASS (typed-API case `{r}` holds)"); std::process::exit(0) } }
     } }
@@ -476,7 +512,7 @@ pub fn run_c03(a: &Args) {
 
 /// C11: the bytes of each text field inside the real encoded frame
 pub fn run_c11(a: &Args) {
-    if let Some(r) = &a.replay { if r.starts_with("ver ") || r.starts_with("sethist ") {
+    if let Some(r) = &a.replay { if r.starts_with("ver ") || r.starts_with("sethist ") || r.starts_with("mso ") {
         let mut st = Stats::default(); typed_api_checks("C11", a, &mut st);
         match st.failures.iter().find(|f| f.2 == *r) { Some(f) => { println!("FAIL {}", f.1); std::process::exit(1) }, None => { println!("PASS (typed-API case `{r}` holds)"); std::process::exit(0) } }
     } }
